@@ -71,6 +71,7 @@ func Open(options Options) (*DB, error) {
 	}
 
 	// 数据目录不存在则创建
+	verifFsEvent("mkdir", options.DirPath, "")
 	if err := os.MkdirAll(options.DirPath, os.ModePerm); err != nil {
 		return nil, err
 	}
@@ -207,6 +208,7 @@ func (db *DB) Put(key []byte, value []byte) error {
 	logRecord.Key = key
 	logRecord.Value = append(logRecord.Value, value...)
 
+	verifSched("put.enter")
 	// 追加日志记录与更新索引必须处于同一临界区,
 	// 保证并发写入同一 key 时索引的最终指向与日志中的先后顺序一致
 	db.mu.Lock()
@@ -218,6 +220,7 @@ func (db *DB) Put(key []byte, value []byte) error {
 		return err
 	}
 
+	verifSched("put.appended")
 	// 更新索引, 并维护无效数据量
 	if oldPos := db.index.Put(key, pos); oldPos != nil {
 		db.reclaimSize += int64(oldPos.Size)
@@ -258,6 +261,7 @@ func (db *DB) Delete(key []byte) error {
 	if pos := db.index.Get(key); pos == nil {
 		return nil
 	}
+	verifSched("delete.checked")
 
 	// 构造 LogRecord 设置删除状态, 作为墓碑值追加到数据文件中
 	logRecord := db.recordPool.Get().(*datafile.LogRecord)
@@ -272,6 +276,7 @@ func (db *DB) Delete(key []byte) error {
 	}
 	// 墓碑值本身可视为无效数据
 	db.reclaimSize += int64(pos.Size)
+	verifSched("delete.appended")
 
 	// 更新索引信息
 	oldPos := db.index.Delete(key)
